@@ -70,7 +70,7 @@ class C17(Check):
     required_probes = [
         "crash_points_enumerated", "lost_writes_enumerated", "load_rejected_incomplete", "load_accepted_complete",
         "special_values", "markers_eq_dim", "overwrite", "foreign_file", "param_mismatch_reader", "rod_io", "eulerian_io",
-        "grid_without_fields", "recovery_after_failed_save", "post_hoc_delete", "reader_object_reused", "file_name_without_h5_suffix", "non_c_contiguous_registered_arrays", "cross_class_reader", "rod_io_created_before_finalize", "mixed_precision_in_one_io",
+        "grid_without_fields", "recovery_after_failed_save", "post_hoc_delete", "reader_object_reused", "file_name_without_h5_suffix", "non_c_contiguous_registered_arrays", "cross_class_reader", "rod_io_created_before_finalize", "mixed_precision_in_one_io", "all_zero_field_with_negative_zeros", "file_moved_into_place", "eulerian_arrays_of_other_precision",
     ]
     tiers = {
         "quick": {"runs": 640, "batch": 8, "timeout": 300},
@@ -88,7 +88,7 @@ class C17(Check):
     # ------------------------------------------------------------------ program
     def _draw_spec(self, rng, dim, used_grid_names):
         cls = prng.weighted_choice(rng, [("IO", 6), ("EulerianFieldIO", 2), ("CosseratRodIO", 2)])
-        spec = {"cls": cls, "grid": None, "efields": [], "lgrids": [], "lag_f64": rng.random() < 0.3, "layout": prng.weighted_choice(rng, [("C", 6), ("F", 1), ("window", 1), ("component_last", 1)])}
+        spec = {"cls": cls, "grid": None, "efields": [], "lgrids": [], "lag_f64": rng.random() < 0.3, "e_other": rng.random() < 0.25, "layout": prng.weighted_choice(rng, [("C", 6), ("F", 1), ("window", 1), ("component_last", 1)])}
         names = NAMES[:]
         rng.shuffle(names)
         if cls == "CosseratRodIO":
@@ -217,7 +217,7 @@ class C17(Check):
             if not saved or r < 0.35:
                 i = rng.randrange(n_ios)
                 if rng.random() < 0.8:
-                    ops.append({"op": "fill", "io": i, "sub": prng.sub_seed(rng), "special": rng.random() < 0.4})
+                    ops.append({"op": "fill", "io": i, "sub": prng.sub_seed(rng), "special": rng.random() < 0.4, "signed_zero": rng.random() < 0.12})
                 fault = prng.weighted_choice(rng, [(None, 8), ("crash_all", 2), ("lose_all", 2), ("crash", 1), ("lose", 1)])
                 if fault in ("crash", "lose"):
                     fault = {fault: rng.randrange(0, 12)}
@@ -236,6 +236,13 @@ class C17(Check):
                 else:
                     j = rng.randrange(len(specs))
                 ops.append({"op": "load", "io": j, "file": f, "reuse": rng.random() < 0.5})
+            elif r < 0.93 and len({x[0] for x in saved}) >= 2:
+                # a file is moved into place under the name of another one (post-processing, run directories)
+                fa, fb = rng.sample(sorted({x[0] for x in saved}), 2)
+                ops.append({"op": "move_file", "src": fb, "dst": fa})
+                wi = [x[1] for x in saved if x[0] == fb][-1]
+                saved = [x for x in saved if x[0] not in (fa, fb)] + [(fa, wi)]
+                ops.append({"op": "load", "io": rng.choice([wi, rng.randrange(len(specs))]), "file": fa, "reuse": rng.random() < 0.5})
             else:
                 f, wi = rng.choice(saved)
                 ops.append({"op": "delete", "file": f, "pick": rng.randrange(1000)})
@@ -269,9 +276,11 @@ class C17(Check):
         layout = spec.get("layout", "C")
         if spec["grid"]:
             size = tuple(spec["grid"]["size"])
+            # the registered arrays need not have the precision the IO object was told about
+            e_t = (np.float32 if real_t == np.float64 else np.float64) if spec.get("e_other") and spec["cls"] == "IO" else real_t
             for f in spec["efields"]:
                 shape = size if f["kind"] == "scalar" else (dim, *size)
-                arrs[("e", f["name"])] = cls._empty(shape, real_t, layout, SENTINEL if fill is None else fill)
+                arrs[("e", f["name"])] = cls._empty(shape, e_t, layout, SENTINEL if fill is None else fill)
         lag_t = np.float64 if spec.get("lag_f64") else real_t  # body arrays are float64 whatever the flow precision
         mixed = spec.get("lag_mixed", False)
         for gi, g in enumerate(spec["lgrids"]):
@@ -430,6 +439,8 @@ class C17(Check):
                 res.probe("eulerian_io")
             if specs[i].get("layout", "C") != "C":
                 res.probe("non_c_contiguous_registered_arrays")
+            if specs[i].get("e_other") and specs[i]["cls"] == "IO" and specs[i]["efields"]:
+                res.probe("eulerian_arrays_of_other_precision")
             if specs[i].get("lag_mixed") and len({a.dtype for k, a in arrs.items() if k[0] in ("g", "l")}) > 1:
                 res.probe("mixed_precision_in_one_io")
             if any(g["n"] == dim and any(f["kind"] == "vector" for f in g["fields"]) for g in specs[i]["lgrids"]):
@@ -671,6 +682,11 @@ class C17(Check):
                 w = writers[i]
                 for k, a in w["arrs"].items():
                     a[...] = prng.smooth_field(op["sub"], a.shape, a.dtype.type, 1.0, str(k))
+                    if op.get("signed_zero"):
+                        # a field at rest: nothing but zeros, some of them negative (bit-exactness includes the sign)
+                        gz = prng.np_rng(op["sub"], "zero", str(k))
+                        a[...] = np.where(gz.random(a.shape) < 0.5, 0.0, -0.0).astype(a.dtype)
+                        res.probe("all_zero_field_with_negative_zeros")
                     if op.get("special"):
                         g = prng.np_rng(op["sub"], "special", str(k))
                         flat = a.reshape(-1)
@@ -727,6 +743,14 @@ class C17(Check):
                 if f not in truth:
                     continue
                 load(op["io"] % len(specs), f, truth[f].get("tag", "none"), reuse=bool(op.get("reuse")))
+            elif kind == "move_file":
+                src, dst = op["src"], op["dst"]
+                if src in truth and os.path.exists(path_of(src)):
+                    os.replace(path_of(src), path_of(dst))
+                    truth[dst] = truth.pop(src)
+                    res.fault("file_moved_into_place")
+                    res.probe("file_moved_into_place")
+                    res.log.event("move_file", src=src, dst=dst)
             elif kind == "delete":
                 f = op["file"]
                 if f not in truth:
